@@ -19,18 +19,18 @@ theorem foldl_add_start {α : Type} (l : List α) (f : α → K) (a : K) :
   | nil => simp
   | cons x xs ih => simp only [List.foldl_cons]; rw [ih (a + f x), ih (0 + f x)]; ring
 
-theorem sumList_nil {α : Type} (f : α → K) : sumList ([] : List α) f = 0 := rfl
-theorem sumList_cons {α : Type} (x : α) (l : List α) (f : α → K) : sumList (x :: l) f = f x + sumList l f := by
+theorem sumListB_nil {α : Type} (f : α → K) : sumList ([] : List α) f = 0 := rfl
+theorem sumListB_cons {α : Type} (x : α) (l : List α) (f : α → K) : sumList (x :: l) f = f x + sumList l f := by
   unfold sumList; simp only [List.foldl_cons]; rw [foldl_add_start]; ring
-theorem sumList_append {α : Type} (l l' : List α) (f : α → K) : sumList (l ++ l') f = sumList l f + sumList l' f := by
+theorem sumListB_append {α : Type} (l l' : List α) (f : α → K) : sumList (l ++ l') f = sumList l f + sumList l' f := by
   induction l with
-  | nil => simp [sumList_nil]
-  | cons x xs ih => simp only [List.cons_append, sumList_cons, ih]; ring
-theorem sumList_zero {α : Type} (l : List α) (f : α → K) (h : ∀ x ∈ l, f x = 0) : sumList l f = 0 := by
+  | nil => simp [sumListB_nil]
+  | cons x xs ih => simp only [List.cons_append, sumListB_cons, ih]; ring
+theorem sumListB_zero {α : Type} (l : List α) (f : α → K) (h : ∀ x ∈ l, f x = 0) : sumList l f = 0 := by
   induction l with
   | nil => rfl
   | cons x xs ih =>
-    rw [sumList_cons, h x (List.mem_cons_self), ih (fun y hy => h y (List.mem_cons_of_mem _ hy))]; ring
+    rw [sumListB_cons, h x (List.mem_cons_self), ih (fun y hy => h y (List.mem_cons_of_mem _ hy))]; ring
 end sums
 
 section shift
@@ -41,7 +41,7 @@ def TiltEl.disp (e : TiltEl R) (z wl : R) : R × R := e.shift 0 0 z wl
 
 theorem TiltEl.shift_eq_add (e : TiltEl R) (xs ys z wl : R) :
     e.shift xs ys z wl = (xs + (e.disp z wl).1, ys + (e.disp z wl).2) := by
-  cases e <;> simp only [TiltEl.shift, TiltEl.disp] <;> refine Prod.ext ?_ ?_ <;> simp only <;> ring
+  cases e <;> simp only [TiltEl.shift, TiltEl.disp, Gen.tiltShift] <;> refine Prod.ext ?_ ?_ <;> simp only <;> ring
 
 theorem foldl_shift (ts : List (TiltEl R)) (z wl : R) (p : R × R) :
     ts.foldl (fun p e => e.shift p.1 p.2 z wl) p =
@@ -52,5 +52,36 @@ theorem foldl_shift (ts : List (TiltEl R)) (z wl : R) (p : R × R) :
     simp only [List.foldl_cons, List.map_cons, List.sum_cons]
     rw [ih, TiltEl.shift_eq_add]; refine Prod.ext ?_ ?_ <;> simp only <;> ring
 end shift
+
+section fit
+variable {R : Type} [Field R] [RealLike R]
+
+/-- closed form of what `fit_tilt` subtracts, from the generated slices and basis rows -/
+theorem fitSubtract_eq (h1 : (RealLike.ofInt 1 : R) = 1) (s0 s1 : Int) (px0 px1 : R) (mask : Int → Int → R) (t : Int → R) (i j : Int) :
+    fitSubtract s0 s1 px0 px1 mask t i j =
+      (RealLike.ofInt (cc s0 i) * px0 * t 1 + -(RealLike.ofInt (cc s1 j)) * px1 * t 2) * mask i j := by
+  have e : (Gen.fitSubRows.2 - Gen.fitSubRows.1).toNat = 2 := rfl
+  unfold fitSubtract
+  rw [e, sumRange_succ, sumRange_succ]
+  simp only [sumRange, List.range_zero, List.foldl_nil, Gen.fitSubRows, Gen.fitSubCoefs, pttBasis, Gen.pttRow, tripleGet, h1]
+  norm_num
+  ring
+
+theorem fitSegSubtract_eq (h1 : (RealLike.ofInt 1 : R) = 1) (s0 s1 : Int) (px0 px1 : R) (seg : Int) (mask : Int → Int → R)
+    (t : Int → R) (i j : Int) :
+    fitSegSubtract s0 s1 px0 px1 seg mask t i j =
+      (RealLike.ofInt (cc s0 i) * px0 * t 1 + -(RealLike.ofInt (cc s1 j)) * px1 * t 2) * mask i j := by
+  have e : ((Gen.fitSegSubRows seg).2 - (Gen.fitSegSubRows seg).1).toNat = 2 := by
+    simp only [Gen.fitSegSubRows]; omega
+  unfold fitSegSubtract
+  rw [e, sumRange_succ, sumRange_succ]
+  have r0 : (Gen.fitSegSubRows seg).1 + ((0 : Nat) : Int) - (Gen.pttSegRows seg).1 = 1 := by
+    simp only [Gen.fitSegSubRows, Gen.pttSegRows]; omega
+  have r1 : (Gen.fitSegSubRows seg).1 + ((1 : Nat) : Int) - (Gen.pttSegRows seg).1 = 2 := by
+    simp only [Gen.fitSegSubRows, Gen.pttSegRows]; omega
+  simp only [sumRange, List.range_zero, List.foldl_nil, r0, r1, Gen.fitSegSubCoefs, pttBasis, Gen.pttRow, tripleGet, h1]
+  norm_num
+  ring
+end fit
 
 end Lentil
